@@ -4,6 +4,7 @@ import (
 	"go/constant"
 	"go/token"
 	"go/types"
+	"strings"
 
 	"golang.org/x/tools/go/ssa"
 )
@@ -87,38 +88,7 @@ func negateCmp(op token.Token) token.Token {
 // condImpliesEmpty: the branch outcome g implies len(<list>) == 0, where list is the
 // origin term of the slice (e.g. "recv.Species[*].Organisms").
 func condImpliesEmpty(tm *Termer, g Guard, list string) bool {
-	b, ok := g.Cond.(*ssa.BinOp)
-	if !ok {
-		return false
-	}
-	op := b.Op
-	lenSide, cSide := b.X, b.Y
-	if _, isC := lenSide.(*ssa.Const); isC {
-		lenSide, cSide = cSide, lenSide
-		op = mirrorCmp(op)
-	}
-	c, ok := cSide.(*ssa.Const)
-	if !ok || c.Value == nil || c.Value.Kind() != constant.Int {
-		return false
-	}
-	n, exact := constant.Int64Val(c.Value)
-	if !exact {
-		return false
-	}
-	lt := tm.Of(lenSide)
-	if lt.Op != "len" || lt.Args[0].String() != list {
-		return false
-	}
-	if !g.True {
-		op = negateCmp(op)
-	}
-	switch op {
-	case token.EQL, token.LEQ:
-		return n == 0 // a length is never negative
-	case token.LSS:
-		return n == 1
-	}
-	return false
+	return LenZeroFact(g.Cond, g.True, func(v ssa.Value) bool { return tm.Of(v).String() == list }) > 0
 }
 
 // mayPrecede: some execution runs a and later b.
@@ -834,4 +804,140 @@ func freshOnPath(ip *IterPath, all []ssa.Value) []ssa.Value {
 		}
 	}
 	return out
+}
+
+// ---------------------------------------------------------------------------
+// "No species was selected" known through a flag. speciate may test a boolean (`done`) instead of, or besides, the
+// selected species itself. `!done` justifies a founding only when done is true WHENEVER a species is selected - an
+// invariant of the scan loop: every scan step that sets the running best species sets the flag to true, and no step
+// takes it back (the flag is left as it is, or set to true). With `done = false` in the update (or a reset on another
+// branch) every organism would found a species of its own although a compatible one was found.
+
+// selectionFlags decides and caches that invariant per flag.
+type selectionFlags struct {
+	fn     *ssa.Function
+	locals map[*ssa.Alloc]bool
+	loops  []*Loop
+	outer  *Loop
+	memo   map[interface{}]bool
+}
+
+// speciesVarsOf: the variables of type *Species carried around loop l (header phis, fields of struct-valued locals).
+func speciesVarsOf(fn *ssa.Function, locals map[*ssa.Alloc]bool, l *Loop) []*scanVar {
+	var out []*scanVar
+	for _, ph := range HeaderPhis(l) {
+		if strings.HasSuffix(typeShort(ph.Type()), "genetics.Species") {
+			out = append(out, &scanVar{phi: ph})
+		}
+	}
+	for _, c := range loopCells(fn, locals, l) {
+		c := c
+		if c.typ() != nil && strings.HasSuffix(typeShort(c.typ()), "genetics.Species") {
+			out = append(out, &scanVar{cell: &c})
+		}
+	}
+	return out
+}
+
+// soundIn: around loop l, flag is true whenever one of the loop's species variables has been set.
+func (sf *selectionFlags) soundIn(l *Loop, flag *scanVar) bool {
+	sps := speciesVarsOf(sf.fn, sf.locals, l)
+	if len(sps) == 0 {
+		return false
+	}
+	paths, complete := EnumIterPaths(sf.fn, l, 500)
+	if !complete {
+		return false
+	}
+	n := 0
+	for _, ip := range paths {
+		if ip.End != "back" {
+			continue
+		}
+		n++
+		seq := newLocalPathSeq(sf.fn, sf.locals, ip.Blocks[:len(ip.Blocks)-1])
+		fv, updF, knownF := flag.next(ip, seq)
+		if !knownF {
+			return false
+		}
+		setTrue := updF && fv != nil && IsConstBool(fv, true)
+		if updF && !setTrue {
+			return false // taken back, or set to something that is not known to be true
+		}
+		for _, sp := range sps {
+			_, updSp, knownSp := sp.next(ip, seq)
+			if !knownSp || (updSp && !setTrue) {
+				return false // a species is selected on a step that does not raise the flag
+			}
+		}
+	}
+	return n > 0
+}
+
+// phiSound: the boolean phi is such a flag of a scan loop inside the loop over the organisms.
+func (sf *selectionFlags) phiSound(ph *ssa.Phi) bool {
+	if v, ok := sf.memo[ph]; ok {
+		return v
+	}
+	sf.memo[ph] = false
+	res := false
+	for _, l := range sf.loops {
+		if l.Header == ph.Block() && l != sf.outer && sf.outer.Blocks[l.Header] {
+			res = sf.soundIn(l, &scanVar{phi: ph})
+		}
+	}
+	if !res && !isLoopHeader(sf.loops, ph.Block()) {
+		// a merge behind the scan: every value it can take is the constant true or such a flag
+		res = len(ph.Edges) > 0
+		for _, e := range ph.Edges {
+			switch x := e.(type) {
+			case *ssa.Const:
+				res = res && IsConstBool(x, true)
+			case *ssa.Phi:
+				res = res && x != ph && sf.phiSound(x)
+			default:
+				res = false
+			}
+		}
+	}
+	sf.memo[ph] = res
+	return res
+}
+
+func isLoopHeader(loops []*Loop, b *ssa.BasicBlock) bool {
+	for _, l := range loops {
+		if l.Header == b {
+			return true
+		}
+	}
+	return false
+}
+
+// cellSound: the boolean field of a struct-valued local is such a flag: it is written only inside scan loops (inside the
+// loop over the organisms) in which it obeys the invariant, and outside them only to start a new scan.
+func (sf *selectionFlags) cellSound(c localCell) bool {
+	if v, ok := sf.memo[c]; ok {
+		return v
+	}
+	res, n := true, 0
+	for _, l := range sf.loops {
+		if l == sf.outer || !sf.outer.Blocks[l.Header] {
+			continue
+		}
+		writes := false
+		for _, lc := range loopCells(sf.fn, sf.locals, l) {
+			if lc == c {
+				writes = true
+			}
+		}
+		if !writes {
+			continue
+		}
+		n++
+		cc := c
+		res = res && sf.soundIn(l, &scanVar{cell: &cc})
+	}
+	res = res && n > 0
+	sf.memo[c] = res
+	return res
 }
